@@ -129,6 +129,39 @@ func vfRunE1(t *testing.T, sc *vfE1, o vfE1Opts) *vfE1Out {
 	return out
 }
 
+// waitHealed runs until done() or until `bound` has passed since the later of the start of
+// the wait and the last fault actually applied (faults may still be going on).
+func (s *vfSim) waitHealed(done func() bool, bound time.Duration) bool {
+	start := time.Now()
+	for {
+		if done() {
+			return true
+		}
+		if s.o.overrun {
+			return false
+		}
+		s.net.mu.Lock()
+		lf := s.net.start.Add(s.net.lastFault)
+		s.net.mu.Unlock()
+		ref := start
+		if lf.After(ref) {
+			ref = lf
+		}
+		limit := ref.Add(bound)
+		now := time.Now()
+		if !now.Before(limit) {
+			return false
+		}
+		slice := limit.Sub(now)
+		if slice > 5*time.Second {
+			slice = 5 * time.Second
+		}
+		if s.o.run(done, now.Add(slice)) {
+			return true
+		}
+	}
+}
+
 // vfAllReliableDelivered: every accepted write on a reliable ordered stream has been read
 // and both senders report zero buffered bytes.
 func vfAllDelivered(s *vfSim) bool {
